@@ -19,7 +19,11 @@ ASSUMPTIONS = [
 
 CLASSES = ["general", "rank_one", "linear", "constant", "measure", "diag_measure", "pdf", "diag_pdf",
            "cond_full", "cond_diag", "cond_identity", "cond_identity_diag"]
-CROSSINGS = ["flatten", "jit_arg", "jit_result", "scan_carry", "to_dict"]
+CROSSINGS = ["flatten", "jit_arg", "jit_result", "scan_carry", "to_dict", "scan_carry_rebuilt", "scan_xs"]
+# scan_carry_rebuilt: the loop body returns an object BUILT BY AN OPERATION (slice) of the carried class, so the tree structures of a
+# constructor-built (possibly queried / sampled-from) object and of an operation-built one must agree; a measure with filled caches
+# is not asked to (its lazily filled fields are part of its structure on the pinned tree).  scan_xs: the batch of a general factor,
+# a cold measure or a full conditional is consumed component by component as the scanned-over input of a loop.
 
 
 def _pool_b(tier):
@@ -36,7 +40,7 @@ def _strategy_b(shapes):
         cls = draw(st.sampled_from(CLASSES))
         crossing = draw(st.sampled_from(CROSSINGS))
         kappa = draw(st.sampled_from([10.0, 50.0]))
-        case = {"D": D, "R": R, "cls": cls, "crossing": crossing, "warm": draw(st.booleans()),
+        case = {"D": D, "R": R, "cls": cls, "crossing": crossing, "warm": draw(st.booleans()), "sampled": draw(st.booleans()),
                 "x": draw(gen.arr((2, D), -2, 2)), "y": draw(gen.arr((2, D), -2, 2))}
         if cls in ("general", "rank_one", "linear", "constant"):
             case["p"] = draw(gen.factor_params(cls, R, D, kappa))
@@ -56,7 +60,14 @@ def _build(case):
     if cls in ("general", "rank_one", "linear", "constant"):
         return libx.make_factor(cls, case["p"])
     if cls in gen.MEASURE_KINDS:
-        return libx.make_measure(cls, case["p"], "full" if case["warm"] else "cold")
+        if case["crossing"] in ("scan_carry_rebuilt", "scan_xs") and cls in ("measure", "diag_measure"):
+            return libx.make_measure(cls, case["p"], "cold")
+        m = libx.make_measure(cls, case["p"], "full" if case["warm"] else "cold")
+        if case.get("sampled") and cls in ("pdf", "diag_pdf"):
+            import jax
+
+            m.sample(jax.random.PRNGKey(3), 2)  # a density that has been sampled from
+        return m
     return libx.make_cond(case["p"])[0]
 
 
@@ -119,6 +130,33 @@ def _run_b(case):
             ok, got = lib(fails, tag + ".value", lambda: np.asarray(_value(o2, x, y)))
             if ok:
                 check(fails, tag + ":value", got, ref, scale)
+    elif crossing == "scan_carry_rebuilt":
+        if not hasattr(obj, "slice"):
+            return fails
+        ok, probe = lib(fails, tag + ".slice", lambda: obj.slice(jnp.arange(int(obj.R))))
+        if not ok or type(probe) is not type(obj):
+            return fails  # slice() of this class hands back another class (diagonal conditionals): not a same-class loop body
+
+        def step2(carry, _):
+            return carry.slice(jnp.arange(int(carry.R))), _value(carry, x, y)
+        ok, res = lib(fails, tag, lambda: jax.lax.scan(step2, obj, jnp.arange(2)))
+        if ok:
+            o2, outs = res
+            check(fails, tag + ":scan_output", np.asarray(outs)[1], ref, scale)
+            ok, got = lib(fails, tag + ".value", lambda: np.asarray(_value(o2, x, y)))
+            if ok:
+                check(fails, tag + ":value", got, ref, scale)
+    elif crossing == "scan_xs":
+        if cls not in ("general", "measure", "cond_full"):
+            return fails
+
+        def body(carry, comp):
+            one = jax.tree_util.tree_map(lambda a: a[None], comp)
+            return carry, _value(one, x, y)
+        ok, res = lib(fails, tag, lambda: jax.lax.scan(body, 0.0, obj))
+        if ok:
+            outs = np.asarray(res[1])  # [R, 1, N] (factor / measure) or [R, N, N] (conditional: cond(x) has N components)
+            check(fails, tag + ":scan_output", outs.reshape(ref.shape), ref, scale)
     elif crossing == "to_dict":
         if not hasattr(obj, "to_dict"):
             return fails
@@ -135,7 +173,7 @@ def _nontrivial_b(case):
 
 
 def _labels_b(case):
-    return [f"cls={case['cls']}", f"crossing={case['crossing']}", f"warm={case['warm']}"]
+    return [f"cls={case['cls']}", f"crossing={case['crossing']}", f"warm={case['warm']}", f"sampled={bool(case.get('sampled')) and case['cls'] in ('pdf', 'diag_pdf')}"]
 
 
 # ------------------------------------------------------------------------------------------ pipelines
